@@ -625,6 +625,10 @@ func (px *pathCtx) maxSteps() int64 {
 }
 
 func (px *pathCtx) hang(fr *frame) {
+	if px.ex != nil && px.ex.Cfg.HangIsViolation {
+		px.violation("hang", "evaluation-does-not-terminate", fmt.Sprintf("no result after %d interpreter steps", px.maxSteps()), fr, nil)
+		px.abort("hang", "step limit %d exceeded in %s", px.maxSteps(), fr.fn)
+	}
 	px.abort("steps", "step limit %d exceeded in %s", px.maxSteps(), fr.fn)
 }
 
